@@ -118,7 +118,7 @@ func (c *Client) handshake(ctx context.Context) error {
 	})
 
 	if err := wg.Wait(); err != nil {
-		if ctxErr := ctx.Err(); ctxErr != nil {
+		if ctxErr := contextErr(ctx); ctxErr != nil {
 			// The watchdog may have observed the end of the handshake
 			// goroutine before the parent context and left the connection
 			// open; an aborted handshake always closes it.
